@@ -45,7 +45,7 @@ RULES = {
     "C15": {"BadHeader", "FirstLinkOutsideFile", "DirectoryOutsideFile", "RequiredTagMissing", "StripOutsideFile",
             "DescriptionOutsideFile", "LinkOutsideFile", "StructuresOverlap", "WrongWidthHeight", "WrongBitsPerSample",
             "WrongSampleFormat", "StripBytesDiffer", "DescriptionNotJson", "DescriptionWrongIds", "MetadataNotOnFirstFrame",
-            "MetadataNotTheUsers", "FileMissing", "TooFewDirectories", "TooManyDirectories", "ChainNotTerminated",
+            "MetadataNotTheUsers", "MetadataOnLaterFrame", "FileMissing", "TooFewDirectories", "TooManyDirectories", "ChainNotTerminated",
             "MetadataJsonWrong"},
     "C16": {"DoubleClose", "CloseForeignDescriptor", "CloseStdDescriptor", "CloseNeverOpened", "WriteAfterClose",
             "WriteForeignDescriptor", "WriteNeverOpened", "FlockAfterClose", "FlockForeignDescriptor", "FlockNeverOpened",
